@@ -336,6 +336,11 @@ def harness_cases(tier, sd):
             add("dryf", name, [B(top), es, {"op": "fault", "kind": fk}, B(top, "dry"), {"op": "unfault", "kind": fk}, B(top)], twin="dry")
         if gens:
             add("dryf", name, [B(top), {"op": "fault", "kind": "gen"}, B(top, "dry"), {"op": "unfault", "kind": "gen"}, B(top), B(top)], twin="dry")
+        # an edit is looked at by a dry run and then taken back: every input is what it was at the last
+        # successful execution, nothing runs
+        if s0 and not shape.get("dirs"):
+            add("dryu", name, [B(top), es, B(top, "dry"), {"op": "revert_src", "s": s0}, B(top), B(top)], twin="dry")
+        add("dryu", name, [B(top), {"op": "edit_env", "t": inner[0]}, B(top, "dry"), {"op": "revert_env", "t": inner[0]}, B(top), B(top)], twin="dry")
         add("gc", name, [B(top), B(top, gc=True), es, B(top, gc=True), B(top)], twin="gc")
         add("gc", name, [B(top), B(top, gc=True, index=True), es, B(top), B(top)], twin="gc")
         add("fail", name, [B(top), es, B(top, fail=[inner[0]]), B(top), B(top)])
@@ -369,7 +374,7 @@ def harness_cases(tier, sd):
             add("gen", name, [B(top), {"op": "delete", "s": g}, B(top), B(top), {"op": "delete", "s": g}, B(top, "dry"), B(top)])
         if shape.get("dirs"):
             d = shape["dirs"][0]
-            for kind in ("rename", "swap", "edit", "hidden", "hidden-nested", "dangling"):
+            for kind in ("rename", "swap", "edit", "hidden", "hidden-nested", "dangling", "renamedir", "movefile", "emptydir"):
                 for rep in range(1 if quick else 3):
                     add("dir", name, [B(top), {"op": "edit_src", "s": d, "kind": kind}, B(top), {"op": "edit_src", "s": d, "kind": kind}, B(top)])
         # a dry run followed by a plain run (no options, as watch mode passes) on the same Project
@@ -511,7 +516,7 @@ def harness_cases(tier, sd):
                 s = rnd.choice(srcs)
                 st = {"op": "edit_src", "s": s}
                 if s in cur.get("dirs", []):
-                    st["kind"] = rnd.choice(["rename", "swap", "edit", "hidden", "hidden-nested", "dangling"])
+                    st["kind"] = rnd.choice(["rename", "swap", "edit", "hidden", "hidden-nested", "dangling", "renamedir", "movefile", "emptydir"])
                 steps.append(st)
             elif r < 0.80 and gens:
                 steps.append({"op": "delete", "s": rnd.choice(gens)})
